@@ -886,6 +886,12 @@ for pid, op in (("C01", "find"), ("C02", "rfind"), ("C07", "count")):
     PROPERTIES[pid]["jobs"] += [bs("huge", op, RESULT, name="bs/huge/%s [needles,other = 80,01,7f,00]" % op, extra=["--palette", "80,01,7f,00"])]
     PROPERTIES[pid]["explanation"] += " The length-threshold space `long-single` is repeated under four more assignments of byte VALUES to the roles (needle >= 0x80 in zero / ASCII filler, needle < 0x80 in filler >= 0x80, needle 0x7F against 0x80): value-dependent code paths that only exist from some length on."
 
+
+# guard pages at the length thresholds (after seeded change R9E: a SWAR count
+# with 255-word blocks reads one word past the end only for 2040*k bytes)
+PROPERTIES["C05"]["jobs"] += [bs("guard-long", "find,rfind,count", MEMORY, name="bs/guard-long (guard pages at the length thresholds)")]
+PROPERTIES["C05"]["explanation"] += " `guard-long`: the real SWAR/SSE2/AVX2/top-level searchers on haystacks of V*{8..129, 255, 256, 257, 510, 512} (+0, 1, V-1) bytes, 256..4100, 8192 and 65535..65537 bytes and every length 1..=1100 (thorough 1..=4200, 1 MiB), flush against a trailing PROT_NONE page and directly after a leading one."
+
 HOOK_COMMITS = ["ffdf165", "556bbde", "0f24165", "8fa21ee"]
 
 ENGINES = [
